@@ -333,6 +333,17 @@ def c04(repo, res):
         if conds:
             res.add(Finding("F8:conditional-agg", rel, "getBH_level2", c, f"pixel_agg is bypassed depending on the block size ({conds}): reducers such as "
                             "std/var/ptp of a single pixel are not the pixel value", c.lineno))
+    # names that hold the result of the staticness predicate (def-use closure)
+    static_names = set()
+    changed = True
+    while changed:
+        changed = False
+        for a in ast.walk(node):
+            if isinstance(a, ast.Assign) and len(a.targets) == 1 and isinstance(a.targets[0], ast.Name) and a.targets[0].id not in static_names:
+                t = ast.unparse(a.value)
+                if "check_static_sensor_orient" in t or any(isinstance(x, ast.Name) and x.id in static_names for x in ast.walk(a.value)):
+                    static_names.add(a.targets[0].id)
+                    changed = True
     # ---- F9: a constant path index on a pose path is only legitimate where staticness was established (or as the last-entry padding)
     for x in ast.walk(node):
         if isinstance(x, ast.Subscript) and isinstance(x.value, ast.Attribute) and x.value.attr in ("_orientation", "_position") and \
@@ -344,7 +355,7 @@ def c04(repo, res):
                 if isinstance(p, ast.If):
                     guards.append(norm(p.test))
                 p = parents.get(id(p))
-            ok9 = idx == "-1" or any("static" in g for g in guards)
+            ok9 = idx == "-1" or any("static" in g or any(nm in g for nm in static_names) for g in guards)
             res.ob(f"F9:{norm(x)}", ok9, {"rule": "F9", "use": norm(x), "guards": guards})
             if not ok9:
                 res.add(Finding("F9:constant-path-index", rel, "getBH_level2", x, f"path entry {idx} of a pose path is used for every path step without a "
